@@ -314,7 +314,7 @@ inline void install()
 template <class F> inline int fenced(F &&f)
 {
     install();
-    int sig = sigsetjmp(g_jmp, 1);
+    int sig = sigsetjmp(g_jmp, 0);   // handlers run with SA_NODEFER and an empty sa_mask: nothing to restore, and no syscall per call
     if(sig == 0) { g_serial = g_serial + 1; g_armed = 1; f(); g_armed = 0; return 0; }
     return sig;
 }
